@@ -238,6 +238,41 @@ Theorem C09_calendar_inverse : forall y m d n,
 Proof. exact calendar_inverse. Qed.
 Print Assumptions C09_calendar_inverse.
 
+(* 11. periods built from calendar dates (Period.from_ymd / from_python_date / from_iso_string / the second half of
+       refrequent, every frequency): the period contains the date, its year is the date's year and its segment is the
+       1-based index of the block of 12/f months that contains the date's month; month_to_segment is regenerated from
+       the source for each class *)
+Theorem C09_from_date_agrees_with_calendar : forall g y m d, is_regular_freq g = true -> valid_ymd y m d -> y <= MAXYEAR ->
+  exists r, from_ymd g y m d = Ok r /\ p_freq r = g /\
+            to_year_segment r = Ok (y, month_to_segment g m) /\
+            1 <= month_to_segment g m <= g /\
+            seg_start_month g (month_to_segment g m) <= m <= seg_end_month g (month_to_segment g m) /\
+            month_to_segment g m = (m - 1) / (12 / g) + 1 /\
+            to_ymd PStart r = Ok (y, seg_start_month g (month_to_segment g m), 1) /\
+            to_ymd PEnd r = Ok (y, seg_end_month g (month_to_segment g m),
+                                days_in_month y (seg_end_month g (month_to_segment g m))).
+Proof. exact from_date_agrees_with_calendar. Qed.
+Print Assumptions C09_from_date_agrees_with_calendar.
+
+Theorem C09_from_date_contains : forall g y m d, cal_freq g -> valid_ymd y m d -> y <= MAXYEAR ->
+  exists r a c, from_ymd g y m d = Ok r /\ p_freq r = g /\ in_domain r /\
+                to_ymd PStart r = Ok a /\ to_ymd PEnd r = Ok c /\ valid3 a /\ valid3 c /\
+                ord3 a <= ord_of_ymd y m d <= ord3 c.
+Proof. exact from_ymd_contains. Qed.
+Print Assumptions C09_from_date_contains.
+
+Theorem C09_from_date_daily : forall y m d, valid_ymd y m d -> y <= MAXYEAR ->
+  exists r, from_ymd freq_DAILY y m d = Ok r /\ (forall pos, to_ymd pos r = Ok (y, m, d)) /\
+            to_year_segment r = Ok (y, days_before_month y m + d).
+Proof. exact from_date_daily. Qed.
+Print Assumptions C09_from_date_daily.
+
+(* the date of a period at ANY position builds the same period back *)
+Theorem C09_date_roundtrip : forall p pos, in_domain p ->
+  exists y m d, to_ymd pos p = Ok (y, m, d) /\ valid_ymd y m d /\ y <= MAXYEAR /\ from_ymd (p_freq p) y m d = Ok p.
+Proof. exact domain_date. Qed.
+Print Assumptions C09_date_roundtrip.
+
 (* non-vacuity: the hypotheses above are met by concrete periods and spans (a quarterly span with step 3 and its
    reversal, a contextual span mutated, resolved against a monthly context and listed) *)
 Example C09_hypotheses_satisfiable :
